@@ -252,6 +252,13 @@ class Run:
             self.events.append(("get", a0, a[1]))
             if a[1] in self.lookups:
                 return self.lookups[a[1]]
+            if isinstance(a[1], str) and a[1] in self.truths:
+                # a marker looked up as a variable (an evaluator that inspects a variable test in place): bound to the marker's value
+                return some(Tok("value-of", a[1]))
+            if isinstance(a[1], str) and a[1] in self.answers:
+                v_ = self.value_of(a[1])
+                if isinstance(v_, Enum) and getattr(v_, "name", None) == "Ok" and v_.fields:
+                    return some(v_.fields[0])
             return UNKNOWN
         if c.endswith("FromIterator>::from_iter") and "GenericPair" in c:
             items = a0.rest() if isinstance(a0, machine.Iter) else (a0 if isinstance(a0, list) else None)
@@ -1492,9 +1499,11 @@ def conditional_table(w, f):
             except (absint.Stuck, absint.Loop) as e:
                 rows.append(((truth, has_alt), {"stuck": str(e)}))
                 continue
-            evs = [(e[0], e[1]) for e in r.events if e[0] in ("eval", "tail")]
+            # (a test that is a plain variable may be looked up in place instead of going through eval_expression: the same thing)
+            evs = [(("eval", "T") if e[0] == "get" else (e[0], e[1])) for e in r.events if e[0] in ("eval", "tail") or (e[0] == "get" and e[2] == "T")]
             rows.append(((truth, has_alt), {"result": res, "events": evs, "as_boolean": ("as_boolean", "T") in r.events,
-                                            "envs_ok": all(e[2] is env for e in r.events if e[0] in ("eval", "tail"))}))
+                                            "envs_ok": all(e[2] is env for e in r.events if e[0] in ("eval", "tail")) and
+                                            all(e[1] is env for e in r.events if e[0] == "get")}))
     return rows
 
 
